@@ -107,7 +107,9 @@ class Cfg:
     cancel_at: Any = None  # loop iteration index at which the caller cancels the run (None: never)
     ev_fail_at: Any = -1
     save_fail_at: Any = -1
-    collab_dur: Any = 0
+    collab_dur: Any = 0  # event callbacks
+    save_dur: Any = None  # artifact saves (None: same as collab_dur)
+    ev_durs: Optional[Dict[str, Any]] = None  # per event name
     hold: Optional[set] = None
     pipeline_id: str = "pid"
 
@@ -210,6 +212,8 @@ def make_rc(spec: Spec, beh: Behaviour, cfg: Cfg, loop: VLoop) -> RunCtx:
     rc.ev_fail_at = cfg.ev_fail_at
     rc.save_fail_at = cfg.save_fail_at
     rc.collab_dur = cfg.collab_dur
+    rc.save_dur = cfg.collab_dur if cfg.save_dur is None else cfg.save_dur
+    rc.ev_durs = dict(cfg.ev_durs or {})
     rc.store_write_once = cfg.write_once
     rc.hold = cfg.hold
     return rc
